@@ -441,9 +441,9 @@ pub fn run(ctx: &mut Ctx) {
     let rt = tokio::runtime::Builder::new_multi_thread().worker_threads(16).enable_all().build().unwrap();
     let limits: fn() -> Limits = if ctx.thorough() { Limits::default } else { quick_limits };
 
-    let n = ctx.scale(600usize, 6000usize);
+    let n = ctx.scale(2400usize, 30_000usize);
     ctx.sub_async(&rt, "channels-and-faults", n, 48, case_strategy(6, 30, false), checker(limits));
-    let n2 = ctx.scale(60usize, 600usize);
+    let n2 = ctx.scale(200usize, 2000usize);
     ctx.sub_async(&rt, "many-channels-large-messages", n2, 12, case_strategy(16, 60, true), checker(limits));
 
     // SSN wraparound (fixed workloads; enumerated over channel types in thorough)
